@@ -147,46 +147,85 @@ def _tables_and_domains(res, index):
         doc = c.docstring()
         documented = {m.group(1): (_doc_bound(m.group(2)), _doc_bound(m.group(3)))
                       for m in re.finditer(r"(\w+)\s*(?::math:`)?\s*\\in\s*\[([^,\]]+),\s*([^\]]+)\]", doc)}
-        guards = {}
-        order_ok = True
-        seen_return = False
-        for stmt in gs.node.body:
-            if isinstance(stmt, ast.Return) or (isinstance(stmt, ast.Assign) and any(isinstance(x, ast.Call) and "make_vertices" in ast.unparse(x) for x in ast.walk(stmt))):
-                seen_return = True
-            if isinstance(stmt, ast.If):
-                t = stmt.test
-                raises = [x for x in ast.walk(stmt) if isinstance(x, ast.Raise)]
-                if isinstance(t, ast.UnaryOp) and isinstance(t.op, ast.Not) and isinstance(t.operand, ast.Compare) and raises:
-                    cmp = t.operand
-                    if len(cmp.ops) == 2 and all(isinstance(o, ast.LtE) for o in cmp.ops) and isinstance(cmp.comparators[0], ast.Name):
-                        exc = raises[0].exc
-                        excname = exc.func.id if isinstance(exc, ast.Call) and isinstance(exc.func, ast.Name) else "?"
-                        guards[cmp.comparators[0].id] = (_num(cmp.left, names), _num(cmp.comparators[1], names), excname)
-                        if seen_return:
-                            order_ok = False
+        # the accepted set of each parameter is decided by constant-folding the guard tests (whatever their spelling:
+        # `not lo <= p <= hi`, `p < lo or p > hi`, a test bound to a local first) at probe values around the documented
+        # bounds; a guard is an `if` whose body raises
+        from ..astutil import single_assignments
+        env_assign = single_assignments(gs.node)
+        guard_ifs = [n for n in ast.walk(gs.node) if isinstance(n, ast.If) and any(isinstance(x, ast.Raise) for x in ast.walk(ast.Module(body=n.body, type_ignores=[])))]
+        build_line = min([x.lineno for x in ast.walk(gs.node) if isinstance(x, ast.Call) and ("make_vertices" in ast.unparse(x.func) or ast.unparse(x.func).endswith("get_shape"))] or [10 ** 9])
+
+        def _truth(node, binding, depth=0):
+            """True / False / None (not foldable) of a guard test with the parameter bound to a number."""
+            if depth > 6:
+                return None
+            if isinstance(node, ast.Name) and node.id in env_assign and node.id not in binding:
+                return _truth(env_assign[node.id], binding, depth + 1)
+            if isinstance(node, ast.UnaryOp) and isinstance(node.op, ast.Not):
+                v = _truth(node.operand, binding, depth + 1)
+                return None if v is None else (not v)
+            if isinstance(node, ast.BoolOp):
+                vals = [_truth(v, binding, depth + 1) for v in node.values]
+                if any(v is None for v in vals):
+                    return None
+                return all(vals) if isinstance(node.op, ast.And) else any(vals)
+            if isinstance(node, ast.Compare):
+                nums = [_num(x, {**names, **binding}) for x in [node.left] + list(node.comparators)]
+                if any(v is None for v in nums):
+                    return None
+                ok_ = True
+                for op, l_, r_ in zip(node.ops, nums, nums[1:]):
+                    ok_ = ok_ and {ast.Lt: l_ < r_, ast.LtE: l_ <= r_, ast.Gt: l_ > r_, ast.GtE: l_ >= r_, ast.Eq: l_ == r_,
+                                   ast.NotEq: l_ != r_}.get(type(op), None)
+                    if ok_ is None:
+                        return None
+                return bool(ok_)
+            return None
+
+        def _raised_at(pname, value):
+            """exception name raised for pname = value by the guards that precede the construction, or None, or '?'"""
+            for g in guard_ifs:
+                t = _truth(g.test, {pname: value})
+                if t is None:
+                    continue
+                if t:
+                    rs = [x for x in ast.walk(ast.Module(body=g.body, type_ignores=[])) if isinstance(x, ast.Raise)]
+                    exc = rs[0].exc
+                    nm = exc.func.id if isinstance(exc, ast.Call) and isinstance(exc.func, ast.Name) else (exc.id if isinstance(exc, ast.Name) else "?")
+                    return nm, g.lineno
+            return None, None
+
         params = [p for p in gs.params[1:]]
-        domains[c.name] = guards
+        guards = {}
         for p in params:
             k = f"{c.name}.get_shape:{p}"
-            if p not in guards:
+            decided = [g for g in guard_ifs if _truth(g.test, {p: 0.0}) is not None]
+            if not decided:
                 res.bad("DOM-1", k + ":noguard", where, f"{c.name}.get_shape does not check the domain of `{p}` before constructing")
-                continue
-            lo, hi, exc = guards[p]
-            if exc != "ValueError":
-                res.bad("DOM-1", k + ":exc", where, f"{c.name}.get_shape raises {exc}, not ValueError, for `{p}` outside its domain")
                 continue
             if p not in documented or None in documented[p]:
                 res.not_in_fragment.append(f"DOM-1 {k}: documented domain not readable")
                 continue
             dlo, dhi = documented[p]
-            if lo is None or hi is None:
-                res.not_in_fragment.append(f"DOM-1 {k}: code bounds not foldable")
-            elif abs(lo - dlo) > 1e-12 or abs(hi - dhi) > 1e-12:
-                res.bad("DOM-1", k, where, f"{c.name}.get_shape accepts {p} in [{lo:.6g}, {hi:.6g}] but the documented domain is [{dlo:.6g}, {dhi:.6g}]")
+            guards[p] = (dlo, dhi, "ValueError")
+            eps = 1e-9 * max(1.0, abs(dlo), abs(dhi))
+            probes = [("below", dlo - eps, True), ("lower bound", dlo, False), ("middle", (dlo + dhi) / 2, False), ("upper bound", dhi, False), ("above", dhi + eps, True)]
+            problems = []
+            for what_, val_, want_raise in probes:
+                exc_, line_ = _raised_at(p, val_)
+                if want_raise and exc_ is None:
+                    problems.append(f"{p} = {val_:.9g} ({what_} the documented domain [{dlo:.6g}, {dhi:.6g}]) is accepted")
+                elif want_raise and exc_ != "ValueError":
+                    problems.append(f"{p} outside its domain raises {exc_}, not ValueError")
+                elif not want_raise and exc_ is not None:
+                    problems.append(f"{p} = {val_:.9g} ({what_} of the documented domain [{dlo:.6g}, {dhi:.6g}]) is refused")
+                if line_ is not None and line_ > build_line:
+                    problems.append("the domain is checked after the construction")
+            if problems:
+                res.bad("DOM-1", k, where, f"{c.name}.get_shape: " + "; ".join(sorted(set(problems))[:3]))
             else:
-                res.ok("DOM-1", k, sample={"family": c.name, "param": p, "domain": [round(lo, 6), round(hi, 6)]})
-        if not order_ok:
-            res.bad("DOM-1", f"{c.name}.get_shape:order", where, f"{c.name}.get_shape constructs before checking the domain")
+                res.ok("DOM-1", k, sample={"family": c.name, "param": p, "domain": [round(dlo, 6), round(dhi, 6)]})
+        domains[c.name] = {p: (v[0], v[1], v[2]) for p, v in guards.items()}
         # fixed b
         mb = re.search(r"\$?b\$?`?\s*parameter is always equal to (\d+)", doc.replace("\n", " "))
         calls = [x for x in ast.walk(gs.node) if isinstance(x, ast.Call) and ast.unparse(x.func).endswith("make_vertices")]
@@ -490,8 +529,9 @@ def _doi(res, index):
     rets = [s for s in fac.node.body if isinstance(s, ast.Return)]
     rname = rets[-1].value.id if rets and isinstance(rets[-1].value, ast.Name) else None
     ok = False
+    from ..astutil import resolve as _resolve
     for s in last_if:
-        if rname and ast.unparse(s.test).replace(" ", "") in (f"not{rname}", f"len({rname})==0", f"{rname}==[]") and any(
+        if rname and ast.unparse(_resolve(s.test, fac.node)).replace(" ", "") in (f"not{rname}", f"len({rname})==0", f"{rname}==[]") and any(
                 isinstance(x, ast.Raise) and "KeyError" in ast.unparse(x) for x in ast.walk(s)):
             ok = True
     ok = ok and rname is not None
